@@ -166,3 +166,126 @@ def shrink(case, still_fails):
                 changed = True
                 break
     return [dbg, st, ops]
+
+
+# ---------------------------------------------------------------------------------------------------------------------
+# elements that a merge brings in are new elements: merge_modules + sort_new_items on real documents (harness kind MERGESNI)
+def module_sequence(text):
+    """[(kind, name)] of the elements directly inside the first MODULE, in the order of the text"""
+    from checks import loadlib
+    toks = loadlib.scan_tokens(text)
+    if toks is None:
+        return None
+    out, depth, i, in_mod = [], 0, 0, False
+    while i < len(toks):
+        t = toks[i]
+        if t[0] == 'begin':
+            tag = toks[i + 1][1] if i + 1 < len(toks) else ''
+            if depth == 1 and tag == 'MODULE':
+                if in_mod:
+                    break
+                in_mod = True
+            elif depth == 2 and in_mod:
+                nm = toks[i + 2][1] if i + 2 < len(toks) and toks[i + 2][0] in ('ident', 'string') else ''
+                out.append((tag, nm))
+            depth += 1
+            i += 2
+            continue
+        if t[0] == 'end':
+            depth -= 1
+            if depth == 1 and in_mod:
+                break
+            i += 2
+            continue
+        i += 1
+    return out
+
+
+NAMED = set(ml.TAGS)
+
+
+def placement(seq_a, seq_out):
+    """None if every element that is not in A stands directly behind the last element of its kind that was in A (together with
+    the other new elements of that kind), or at the end if A has none of that kind"""
+    in_a = set(seq_a)
+    kinds_a = {k for k, n in seq_a}
+    last_a = {}
+    for pos, e in enumerate(seq_out):
+        if e in in_a:
+            last_a[e[0]] = pos
+    old_out = [e for e in seq_out if e in in_a]
+    if old_out != [e for e in seq_a if e in set(seq_out)]:
+        return 'the elements that were in A are written in another order than before'
+    end_started = False
+    for pos, e in enumerate(seq_out):
+        if e in in_a or e[0] not in NAMED:
+            if end_started and e in in_a:
+                return 'element %s %s of A is written behind new elements that have no placed element of their kind' % e
+            continue
+        k = e[0]
+        if k in last_a:
+            # everything between the last A element of the kind and this one must be a new element of the same kind
+            between = seq_out[last_a[k] + 1:pos]
+            if any(x[0] != k or x in in_a for x in between):
+                return 'new %s %s is not written directly behind the last placed %s (between them: %s)' % (k, e[1], k, between[:3])
+        else:
+            end_started = True
+    return None
+
+
+def extra_stage(v, tier, rng, impl):
+    from checks import reflib as R
+    sites = R.load_sites()
+    n = 40 if tier == 'quick' else 2000
+    pairs = []
+    for j in range(n):
+        ov = ['disjoint', 'disjoint', 'conflict', 'identical'][j % 4]
+        ta, tb, info = R.gen_merge_pair(rng, sites, ov, size=rng.choice(['small', 'small', 'medium']))
+        pairs.append((ov, ta, tb, rng.choice([0, 0, 1, 3])))
+    out = fw.run_isolating([impl, 'MERGESNI'], [sx.enc([ta, tb, k]) for ov, ta, tb, k in pairs], single_timeout=60)
+    found, n_ok, n_new = [], 0, 0
+    for (ov, ta, tb, k), line in zip(pairs, out):
+        why = None
+        if line is None or line.startswith('DIED'):
+            why = 'implementation died'
+        else:
+            a = sx.dec(line)
+            st = a[0].decode()
+            if st == 'ERR':
+                continue
+            if st == 'PANIC':
+                why = 'panic in ' + a[1].decode()
+            else:
+                sa, s1, s2 = module_sequence(ta), module_sequence(a[1].decode('utf-8', 'replace')), module_sequence(a[2].decode('utf-8', 'replace'))
+                if sa is None or s1 is None or s2 is None:
+                    continue
+                n_new += sum(1 for e in s1 if e not in set(sa) and e[0] in NAMED)
+                why = placement(sa, s1)
+                if why is None and s2 != s1:
+                    why = '%d further sort_new_items() call(s) change the output order of placed elements' % k
+        if why is None:
+            n_ok += 1
+        elif len(found) < 3:
+            found.append({'payload': {'kind': 'MERGESNI', 'textA': ta, 'textB': tb, 'extra_calls': k, 'overlap': ov, 'why': why,
+                                      'stage': 'W (merge_modules, sort_new_items, write on documents)'}})
+    v.coverage['merge_then_sort_new_items_pairs'] = len(pairs)
+    v.coverage['merge_then_sort_new_items_ok'] = n_ok
+    v.coverage['merged_elements_placed'] = n_new
+    return found
+
+
+def replay(r):
+    if r.get('kind') != 'MERGESNI':
+        return None
+    impl = fw.build_harness()
+    line = fw.run_single([impl, 'MERGESNI'], sx.enc([r['textA'], r['textB'], r.get('extra_calls', 0)]))
+    a = sx.dec(line) if line and not line.startswith('DIED') else None
+    if a is None or a[0] != b'OK':
+        print('implementation:', line[:300] if line else None)
+        return 1
+    sa, s1, s2 = module_sequence(r['textA']), module_sequence(a[1].decode('utf-8', 'replace')), module_sequence(a[2].decode('utf-8', 'replace'))
+    print('A:      ', sa)
+    print('written:', s1)
+    why = placement(sa, s1) or (None if s1 == s2 else 'further sort_new_items() calls change the order')
+    print('oracle:', why or 'every merged element stands behind the last placed element of its kind')
+    return 1 if why else 0
